@@ -60,7 +60,16 @@ func (c *Ctx) registryEntries(rel, name string) ([]regEntry, *ssa.Global, error)
 				if !ok || k.Value == nil {
 					return nil, g, fmt.Errorf("non-constant key at %s", c.InstrPos(mu))
 				}
-				out = append(out, regEntry{Key: k.Value, Val: mu.Value, Site: mu})
+				val := mu.Value
+				// a function stored under a named function type (`type stringifier func(...)`) is the function
+				for {
+					ct, ok := val.(*ssa.ChangeType)
+					if !ok {
+						break
+					}
+					val = ct.X
+				}
+				out = append(out, regEntry{Key: k.Value, Val: val, Site: mu})
 			}
 		}
 	}
